@@ -17,3 +17,25 @@ pub fn eval_number(expr: String, placeholder: Number) -> Result<Number, ParseErr
     let result = eval(ast)?;
     Ok(result)
 }
+
+#[cfg(feature = "verif_hooks")]
+pub fn verif_tokens(expr: &str) -> Option<Vec<String>> {
+    let expr = expr.split_whitespace().collect::<String>();
+    let mut lexer = tokenizer::Tokenizer::new(&expr);
+    let mut out = Vec::new();
+    loop {
+        let tok = lexer.next()?;
+        if tok == token::Token::Eof {
+            break;
+        }
+        out.push(format!("{:?}", tok));
+    }
+    Some(out)
+}
+
+#[cfg(feature = "verif_hooks")]
+pub fn verif_ast(expr: &str, placeholder: Number) -> Result<String, ParseError> {
+    let expr = expr.split_whitespace().collect::<String>();
+    let mut math_parser = Parser::new(&expr, Some(placeholder))?;
+    Ok(format!("{:?}", math_parser.parse()?))
+}
